@@ -19,6 +19,7 @@ import (
 	"log/slog"
 	"sort"
 	"sync"
+	"sync/atomic"
 	"testing"
 	"time"
 
@@ -35,6 +36,8 @@ type vrStream struct {
 	reqRev  int64
 	once    sync.Once
 	arrived chan struct{}
+	errs    chan clientv3.WatchResponse // error responses of the real watch (ErrCompacted ...)
+	recv    atomic.Int64                // revisions received from etcd so far
 	dead    bool
 }
 
@@ -55,9 +58,10 @@ func (w *vrWatcher) Watch(ctx context.Context, key string, opts ...clientv3.OpOp
 	inner, cancel := context.WithCancel(ctx)
 	all := append(append([]clientv3.OpOption{}, opts...), clientv3.WithCreatedNotify())
 	realCh := w.Watcher.Watch(inner, key, all...)
-	s := &vrStream{out: make(chan clientv3.WatchResponse), cancel: cancel, reqRev: op.Rev(), arrived: make(chan struct{}, 4096)}
+	s := &vrStream{out: make(chan clientv3.WatchResponse), cancel: cancel, reqRev: op.Rev(), arrived: make(chan struct{}, 4096),
+		errs: make(chan clientv3.WatchResponse, 16)}
 	first, ok := <-realCh
-	if !ok || !first.Created || first.Err() != nil {
+	if !ok {
 		s.dead = true
 		s.closeOut()
 		w.established <- s
@@ -68,9 +72,16 @@ func (w *vrWatcher) Watch(ctx context.Context, key string, opts ...clientv3.OpOp
 	} else {
 		s.from = first.Header.Revision + 1
 	}
+	if first.Err() != nil { // refused right away (start revision compacted): the schedule hands it to the router
+		s.errs <- first
+	}
 	go func() {
 		for resp := range realCh {
-			if resp.Err() != nil || len(resp.Events) == 0 {
+			if resp.Err() != nil {
+				s.errs <- resp
+				continue
+			}
+			if len(resp.Events) == 0 {
 				continue
 			}
 			// split into one response per revision
@@ -82,6 +93,7 @@ func (w *vrWatcher) Watch(ctx context.Context, key string, opts ...clientv3.OpOp
 					s.mu.Lock()
 					s.queue = append(s.queue, r)
 					s.mu.Unlock()
+					s.recv.Add(1)
 					s.arrived <- struct{}{}
 					cur = nil
 				}
@@ -141,6 +153,8 @@ type vrRun struct {
 	emit     func(map[string]any)
 	keys     []string
 	aborted  bool
+	freeRun  bool  // after an Abort the router is still driven to quiescence by its own steps
+	compact  int64 // revision of the last compaction (absolute), 0 = none
 	stopping bool
 	mu       sync.Mutex
 }
@@ -225,8 +239,12 @@ func (r *vrRun) st() map[string]any {
 		skip = append(skip, k)
 	}
 	sort.Strings(skip)
+	compacted := int64(0)
+	if r.compact > 0 {
+		compacted = r.compact - r.base
+	}
 	return map[string]any{"rev": resp.Header.Revision - r.base, "state": r.state, "watching": r.state == "watching",
-		"pending": r.pending(), "table": table, "owners": owners, "skip": skip}
+		"pending": r.pending(), "table": table, "owners": owners, "skip": skip, "compacted": compacted}
 }
 
 func (r *vrRun) gate(point, id string) {
@@ -247,6 +265,12 @@ func (r *vrRun) waitArrive() bool {
 	case <-time.After(vrLong):
 		return false
 	}
+}
+
+// a step of the router itself that does not apply in the state the real router is in (schedules derived from a wrong
+// design diverge from the real code at some point): skipped, noted, the schedule goes on with its remaining inputs
+func (r *vrRun) note(i int, st vlStep, why string) {
+	r.emit(map[string]any{"ev": "Note", "step": i, "a": st.A, "why": why})
 }
 
 func (r *vrRun) abort(i int, st vlStep, why string) {
@@ -277,6 +301,53 @@ func (r *vrRun) step(i int, st vlStep) {
 				r.changes = append(r.changes, resp.Header.Revision)
 			}
 		}
+	case "AdminDelAll": // one transaction = one revision with one delete event per present key
+		ctx, cancel := context.WithTimeout(context.Background(), 20*time.Second)
+		defer cancel()
+		var ops []clientv3.Op
+		for _, k := range r.keys {
+			ops = append(ops, clientv3.OpDelete(r.etcdKey(k)))
+		}
+		resp, err := r.admin.Txn(ctx).Then(ops...).Commit()
+		if err != nil {
+			r.t.Fatalf("admin txn: %v", err)
+		}
+		n := int64(0)
+		for _, rp := range resp.Responses {
+			n += rp.GetResponseDeleteRange().Deleted
+		}
+		if n > 0 {
+			r.changes = append(r.changes, resp.Header.Revision)
+		}
+		line["deleted"] = n
+	case "Compact":
+		// the real watch must have caught up first: etcd cancels a watcher that is still behind the compaction revision,
+		// and how fast it catches up is a matter of real time
+		if r.state == "watching" {
+			want := int64(0)
+			for _, c := range r.changes {
+				if c >= r.stream.from {
+					want++
+				}
+			}
+			deadline := time.Now().Add(vrLong)
+			for r.stream.recv.Load() < want {
+				if time.Now().After(deadline) {
+					r.t.Fatalf("step %d %v: the watch did not catch up before the compaction", i, st)
+				}
+				time.Sleep(200 * time.Microsecond)
+			}
+		}
+		ctx, cancel := context.WithTimeout(context.Background(), 20*time.Second)
+		defer cancel()
+		cur, err := r.admin.Get(ctx, r.prefix(), clientv3.WithPrefix(), clientv3.WithCountOnly())
+		if err != nil {
+			r.t.Fatalf("admin get: %v", err)
+		}
+		if _, err := r.admin.Compact(ctx, cur.Header.Revision, clientv3.WithCompactPhysical()); err != nil {
+			r.t.Fatalf("admin compact: %v", err)
+		}
+		r.compact = cur.Header.Revision
 	case "Load":
 		line["q"] = st.Q
 		built := make(chan error, 1)
@@ -295,11 +366,18 @@ func (r *vrRun) step(i int, st vlStep) {
 		case "closed": // the router sleeps one second and then asks for the prefix by itself
 			built <- nil
 		default:
-			r.abort(i, st, "router is "+r.state)
+			r.note(i, st, "router is "+r.state)
 			return
 		}
 		select {
 		case <-r.kv.arrive:
+		case <-r.arrive:
+			// the router is back at the gate before Watch without having re-read the prefix: this step cannot be imposed.
+			// Not replayed; the router is still driven to quiescence and observed there.
+			r.state = "loaded"
+			r.freeRun = true
+			r.abort(i, st, "router returned to router.beforeWatch without re-reading the prefix")
+			return
 		case <-time.After(vrLong):
 			r.t.Fatalf("step %d %v: router did not start loadAll", i, st)
 		}
@@ -319,7 +397,7 @@ func (r *vrRun) step(i int, st vlStep) {
 	case "WatchStart":
 		line["q"] = st.Q
 		if r.state != "loaded" {
-			r.abort(i, st, "router is "+r.state)
+			r.note(i, st, "router is "+r.state)
 			return
 		}
 		r.release <- struct{}{}
@@ -332,8 +410,26 @@ func (r *vrRun) step(i int, st vlStep) {
 		case <-time.After(vrLong):
 			r.t.Fatalf("step %d %v: router did not call Watch", i, st)
 		}
-		r.state = "watching"
 		line["from"] = r.stream.from - r.base
+		line["failed"] = false
+		if r.compact > 0 && r.stream.from < r.compact {
+			// etcd refuses a start revision below its compaction revision: one error response, then the channel is closed
+			line["failed"] = true
+			select {
+			case e := <-r.stream.errs:
+				select {
+				case r.stream.out <- e:
+				case <-time.After(vrLong):
+					r.t.Fatalf("step %d %v: router does not read its watch channel", i, st)
+				}
+			case <-time.After(vrLong):
+				r.t.Fatalf("step %d %v: etcd did not refuse a watch below the compaction revision", i, st)
+			}
+			r.stream.closeOut()
+			r.state = "closed"
+			break
+		}
+		r.state = "watching"
 		line["reqrev"] = int64(0) // revision asked for with WithRev, relative to the schedule's base (0 = none: "now")
 		if r.stream.reqRev > 0 {
 			line["reqrev"] = r.stream.reqRev - r.base
@@ -341,7 +437,7 @@ func (r *vrRun) step(i int, st vlStep) {
 	case "Deliver":
 		line["q"] = st.Q
 		if r.state != "watching" || r.pending() == 0 {
-			r.abort(i, st, "nothing to deliver")
+			r.note(i, st, "nothing to deliver")
 			return
 		}
 		select {
@@ -373,7 +469,7 @@ func (r *vrRun) step(i int, st vlStep) {
 	case "WatchClose":
 		line["q"] = st.Q
 		if r.state != "watching" {
-			r.abort(i, st, "router is "+r.state)
+			r.note(i, st, "router is "+r.state)
 			return
 		}
 		r.stream.closeOut()
@@ -381,7 +477,7 @@ func (r *vrRun) step(i int, st vlStep) {
 	case "Invalidate":
 		line["q"], line["k"] = st.Q, st.K
 		if r.state == "init" {
-			r.abort(i, st, "no router yet")
+			r.note(i, st, "no router yet")
 			return
 		}
 		n := map[string]int{"r1": 0, "r2": 1, "r3": 2}[st.K]
@@ -471,7 +567,7 @@ func TestVerifRouterReplay(t *testing.T) {
 			}
 		}
 		// run the router's own steps to quiescence so that every schedule ends in a state the property speaks about
-		for guard := 0; !r.aborted && guard < 64; guard++ {
+		for guard := 0; (!r.aborted || r.freeRun) && guard < 64; guard++ {
 			var st vlStep
 			switch {
 			case r.state == "init" || r.state == "closed":
